@@ -353,12 +353,7 @@ func ruleRowCache(p *Prog, r *Result) {
 				continue
 			}
 			ctx := ssa.Value(fn.Params[1])
-			okv := false
-			allInstrs(fn, func(in ssa.Instruction) {
-				if isClearOn(in, ctx) && instrDominates(in, fetch) {
-					okv = true
-				}
-			})
+			okv := clearedBefore(fn, fetch, ctx, nil)
 			r.add(okv, "ProjectionPlan."+mn+"|clear-first", p.InstrPos(fetch), "the projection clears the context (a plain call, on every path) before fetching from its child")
 		}
 	} else {
